@@ -38,6 +38,7 @@ ARCHETYPES = [
     "pensioners",
     "spouse_apart",
     "pensioner_parent",
+    "parents_not_partners",
 ]
 
 POINTER_COLS = [
@@ -353,6 +354,19 @@ def _draw_household(draw, b: _Builder, arch: str, max_children: int):
         b.child_of(baby, k, -1)
         b.rows[k]["alleinerz"] = True
         b.tags.add("teen_parent")
+
+    elif arch == "parents_not_partners":
+        # both parents of a child live in the child's household without being each other's partner
+        # (separated parents who still share the flat); the documentation does not say whose family
+        # unit the child belongs to, but the table is valid input
+        pa = _adult_age(draw, 30, 60)
+        a = b.add(hh, pa, weiblich=True)
+        c = b.add(hh, _adult_age(draw, 30, 64), weiblich=False)
+        youngest = min(pa, b.rows[c]["alter"])
+        for _ in range(draw(st.integers(1, 2))):
+            k = b.add(hh, _child_age(draw, youngest, 0, 17), weiblich=draw(st.booleans()))
+            b.child_of(k, a, c, kg=draw(st.sampled_from([a, c])))
+        b.tags.add("parents_not_partners")
 
     elif arch == "flat_share":
         for _ in range(draw(st.integers(2, 4))):
